@@ -43,7 +43,7 @@ package http1
 //@ func Server.Serve(s, c, conn) err
 //@   props C19, C18, C01, C03, C04
 //@   requires phase == 0 && !rejecting && !closeSet && !notRunningSeen && !runningChecked && !wantClose && !headChecked
-//@   ghostset after IsHead!: headChecked = (phase == 2)
+//@   ghostset after IsGet!: headChecked = (phase == 2)
 //@   assert @C04 before writeResponse: rejecting || headChecked
 //@   ghostset after ResetWithoutConn: headChecked = false
 //@   ghostset after ConnectionClose!: wantClose = wantClose || result
